@@ -93,21 +93,21 @@ theorem clampDepth_le (m : ℕ) (depth : Option ℕ) : clampDepth m depth ≤ m 
 
 /-- the pixel set `add_circles(ra, dec, r, depth)` obtains from `query_disc` -/
 noncomputable def discPixels (H : Healpix) (m : ℕ) (depth : Option ℕ) (rac decc r : ℝ) : Finset ℕ :=
-  let c := addCircleCall sky2angTheta m depth rac decc r
-  (H.disc c.depth).query (toE3 c.vec) c.radius
+  let c := addCircleCall sky2angTheta discFact m depth rac decc r
+  (H.disc c.fact c.depth).query (toE3 c.vec) c.radius
 
 theorem discPixels_eq (H : Healpix) (m : ℕ) (depth : Option ℕ) (rac decc r : ℝ) :
     discPixels H m depth rac decc r
-      = (H.disc (clampDepth m depth)).query (toE3 (skyvec rac decc)) r := by
+      = (H.disc discFact (clampDepth m depth)).query (toE3 (skyvec rac decc)) r := by
   simp only [discPixels, addCircleCall, sky2vec_eq_skyvec]
 
 /-- the pixel set `add_poly(positions, depth)` obtains from `query_polygon`
     (`none`: rejected by `add_poly` or by healpy) -/
 noncomputable def polyPixels (H : Healpix) (m : ℕ) (depth : Option ℕ) (pos : List (ℝ × ℝ)) :
     Option (Finset ℕ) :=
-  match addPolyCall sky2angTheta m depth pos with
+  match addPolyCall sky2angTheta polyFact m depth pos with
   | none => none
-  | some c => (H.poly c.depth).query (c.verts.map toE3)
+  | some c => (H.poly c.fact c.depth).query (c.verts.map toE3)
 
 /-- the polygon's vertices as unit vectors -/
 noncomputable def polyVerts (pos : List (ℝ × ℝ)) : List E3 :=
@@ -115,7 +115,7 @@ noncomputable def polyVerts (pos : List (ℝ × ℝ)) : List E3 :=
 
 theorem polyPixels_eq (H : Healpix) (m : ℕ) (depth : Option ℕ) (pos : List (ℝ × ℝ)) (D : Finset ℕ)
     (h : polyPixels H m depth pos = some D) :
-    3 ≤ pos.length ∧ (H.poly (clampDepth m depth)).query (polyVerts pos) = some D := by
+    3 ≤ pos.length ∧ (H.poly polyFact (clampDepth m depth)).query (polyVerts pos) = some D := by
   unfold polyPixels addPolyCall at h
   split at h
   · simp at h
